@@ -226,7 +226,7 @@ func WaitOrStuck(done <-chan struct{}, pair *Pair) string {
 	select {
 	case <-done:
 		return ""
-	case <-time.After(400 * time.Millisecond):
+	case <-time.After(200 * time.Millisecond):
 	}
 	last := ""
 	same := 0
@@ -234,7 +234,7 @@ func WaitOrStuck(done <-chan struct{}, pair *Pair) string {
 		select {
 		case <-done:
 			return ""
-		case <-time.After(50 * time.Millisecond):
+		case <-time.After(40 * time.Millisecond):
 		}
 		fp, ok, dump := quiescentFingerprint()
 		if ok && (pair == nil || !pair.deliverable()) {
